@@ -138,7 +138,7 @@ func choicePattern(rng *rand.Rand, n int, pat string) []bool {
 		case "lastone":
 			b[i] = i == n-1
 		case "firstchunk":
-			b[i] = i < 512
+			b[i] = i < iknpChunkRowsMemoOr512()
 		}
 	}
 	return b
@@ -417,7 +417,64 @@ func runCOHelpers(res *Result, n int, flags []bool, rng *rand.Rand) {
 	}
 }
 
+// iknpChunkRows measures the number of matrix rows the implementation sends per message: the largest message of an
+// honest semi-honest batch of 16384 rows carries K/8 = 16 bytes per row.
+var iknpChunkRowsMemo int
+
+func iknpChunkRows() (int, error) {
+	if iknpChunkRowsMemo > 0 {
+		return iknpChunkRowsMemo, nil
+	}
+	rng := rand.New(rand.NewSource(1))
+	p, err := newIKNPPair(rng, 0)
+	if err != nil {
+		return 0, err
+	}
+	defer p.sc.Close()
+	defer p.rc.Close()
+	n := 16384
+	p.rIO.mu.Lock()
+	base := len(p.rIO.sentData)
+	p.rIO.mu.Unlock()
+	var wg sync.WaitGroup
+	var es, er error
+	wg.Add(2)
+	go func() { defer wg.Done(); _, es = p.s.Send(n, false) }()
+	go func() { defer wg.Done(); er = p.r.Receive(make([]bool, n), make([]ot.Label, n), false) }()
+	if !waitOrStall(&wg, 60*time.Second) || es != nil || er != nil {
+		return 0, fmt.Errorf("measuring the extension chunk size: %v / %v", es, er)
+	}
+	p.rIO.mu.Lock()
+	defer p.rIO.mu.Unlock()
+	max := 0
+	for _, sz := range p.rIO.sentData[base:] {
+		if sz > max {
+			max = sz
+		}
+	}
+	if max == 0 || max%16 != 0 {
+		return 0, fmt.Errorf("measuring the extension chunk size: messages %v", p.rIO.sentData[base:])
+	}
+	iknpChunkRowsMemo = max / 16
+	return iknpChunkRowsMemo, nil
+}
+
+func iknpChunkRowsMemoOr512() int {
+	if iknpChunkRowsMemo > 0 {
+		return iknpChunkRowsMemo
+	}
+	return 512
+}
+
 func c06Main(args []string) error {
+	if len(args) >= 1 && args[0] == "consts" {
+		r, err := iknpChunkRows()
+		if err != nil {
+			return err
+		}
+		fmt.Printf("{\"chunk_rows\": %d}\n", r)
+		return nil
+	}
 	if len(args) < 3 || args[0] != "run" {
 		return fmt.Errorf("usage: vh c06 run cases results")
 	}
@@ -426,6 +483,9 @@ func c06Main(args []string) error {
 		return err
 	}
 	defer out.close()
+	if _, err := iknpChunkRows(); err != nil {
+		return err
+	}
 	rng := rand.New(rand.NewSource(seed()*141650939 + 6))
 	pats := []string{"zeros", "ones", "alt", "rand", "lastone", "firstchunk"}
 	idx := 0
